@@ -15,6 +15,9 @@ package main
 //     node bytes of the model are {kind, node number, epoch}.
 //   - iplddecoders.Decode{Block,Entry,Transaction,DataFrame,Rewards} at their call sites in epoch.go
 //     (CBOR decoding: C11/C12): a fresh copy of the stored node, or an error if the node is of another kind.
+//     A transaction node's data is the wire form compact-u16(1) ++ first signature ++ message bytes,
+//     so the real ipldbindcode.Transaction.Signature() (called by (*Epoch).GetTransaction since the
+//     C03-S1 fix) reads the archived signature from the node's first frame.
 //   - (*Epoch).prefetchSubgraph: cache warm-up only. The epochs are in lassie mode, which skips the
 //     CAR prefetch closure of the getBlock handlers (cache warm-up only).
 //   - tooling.DecompressZstd at its call sites in storage.go / grpc-server.go / multiepoch-getBlock.go
@@ -148,9 +151,34 @@ const (
 // payload archives n symbolic bytes in the given layout and returns the first frame (to be embedded
 // in the owner node). withHash records the CRC64 of the whole payload in the first frame.
 func (a *verifC02Archive) payload(name string, n int, layout int, withHash bool) verifC02Payload {
-	p := verifC02Payload{want: verifBytes(name, n)}
+	return a.payloadWithHead(nil, name, n, layout, withHash)
+}
+
+// txDataPayload archives the wire bytes of a transaction: compact-u16 signature count 1, the 64
+// signature bytes, then n symbolic message bytes. The head (count + signature) always lies in the
+// first frame, as in real archives (frames are cut at a size far above 65 bytes).
+func (a *verifC02Archive) txDataPayload(sig solana.Signature, name string, n int, layout int, withHash bool) verifC02Payload {
+	head := make([]byte, 65)
+	head[0] = 1
+	copy(head[1:], sig[:])
+	return a.payloadWithHead(head, name, n, layout, withHash)
+}
+
+const verifC02TxHead = 65 // compact-u16(1) + first signature
+
+// payloadWithHead archives head ++ n symbolic bytes; the head stays in the first frame and the n
+// bytes are cut evenly over the frames of the layout.
+func (a *verifC02Archive) payloadWithHead(head []byte, name string, n int, layout int, withHash bool) verifC02Payload {
+	h := len(head)
+	p := verifC02Payload{want: append(append([]byte{}, head...), verifBytes(name, n)...)}
 	p.first = ipldbindcode.DataFrame{Kind: verifC02KindDataFrame}
-	cut := func(i, k int) []byte { return p.want[n*i/k : n*(i+1)/k] }
+	cut := func(i, k int) []byte {
+		lo, hi := h+n*i/k, h+n*(i+1)/k
+		if i == 0 {
+			lo = 0
+		}
+		return p.want[lo:hi]
+	}
 	frame := func(i, k int, next ...cid.Cid) *ipldbindcode.DataFrame {
 		f := &ipldbindcode.DataFrame{Kind: verifC02KindDataFrame, Index: verifC02IntPP(i), Total: verifC02IntPP(k), Data: cut(i, k)}
 		l := ipldbindcode.List__Link{}
